@@ -164,7 +164,8 @@ CHECKS["C14"] = {
     "level": "exploration",
     "jobs": [J("close", "c14", "TestClose", 2500, 200000, 8), J("slowcloser", "c14", "TestSlowCloser", None, None),
              J("serving", "c14", "TestCloseWhileRunnerServes", 300, 10000, 2),
-             J("localtypes", "c14", "TestLocalTypesSharingAName", None, None)],
+             J("localtypes", "c14", "TestLocalTypesSharingAName", None, None),
+             J("flakycloser", "c14", "TestFlakyCloser", 300, 8000, 2)],
     "assumptions": [
         "the harness owns the finishing order of the Close calls through per-closer gates; gates are opened independently of whether the closer has been entered, so a sequential implementation is not rejected",
         "the only wall-clock bound (10 s) applies after every gate is open, i.e. when all work is provably finishable",
@@ -180,6 +181,7 @@ CHECKS["C19"] = {
         J("e2e-prop", "c19", "TestEndToEndProp", 500, 10000, 4),
         J("e2e-prop-emptykey", "c19", "TestEndToEndPropEmptyKey", 500, 10000, 2),
         J("e2e-data", "c19", "TestEndToEndDataIsNotTagText", 800, 20000, 4),
+        J("concurrent", "c19", "TestParseConcurrently", 400, 10000, 2),
         J("seedcorpus", "c19", "FuzzTagParse", None, None),
         J("fuzz-faithful", "c19", "FuzzFaithful", None, None, tiers=["thorough"], fuzz={"target": "FuzzFaithful", "time": {"quick": "10s", "thorough": "120s"}}, timeout={"thorough": 900}),
         J("fuzz", "c19", "FuzzTagParse", None, None, tiers=["thorough"], fuzz={"target": "FuzzTagParse", "time": {"quick": "10s", "thorough": "180s"}}, timeout={"thorough": 900}),
@@ -198,6 +200,7 @@ CHECKS["C11"] = {
         J("diamond", "c11", "TestStaticDiamondEmbedding", None, None),
         J("shadowlazy", "c11", "TestStaticShadowAndLazy", None, None),
         J("embeddedprefixed", "c11", "TestStaticEmbeddedPrefixed", None, None),
+        J("helperlevels", "c11", "TestStaticHelperLevels", None, None),
     ],
     "assumptions": [
         "run-time built structs (reflect.StructOf) can only embed under an exported field name; embedded types with unexported names are covered by static fixtures",
@@ -210,6 +213,7 @@ CHECKS["C15"] = {
     "jobs": [J("merge", "c15", "TestMerge", 2500, 60000, 8), J("reinitialize", "c15", "TestReinitialize", 800, 20000, 4),
              J("sharedlist", "c15", "TestSharedLoaderList", 300, 6000, 2),
              J("orderedloaders", "c15", "TestOrderedLoaders", 1500, 40000, 2),
+             J("largefile", "c15", "TestLargeFile", None, None),
              J("overlappingruns", "c15", "TestOverlappingIocRuns", 60, 1500, 2, env={"VERIF_GLOBAL_SETTINGS": "1"})],
     "assumptions": [
         "documents are shape-consistent (a key is a map in every source or a leaf in every source): what Viper does with map-vs-scalar conflicts is third-party behaviour outside the property",
